@@ -4,7 +4,7 @@ Simulated dimension: seeded histories of scheduler registrations / removals / re
 injected rejections (duplicate id, unknown id), interleaved with timesteps."""
 from ECAgent.Collectors import Collector
 
-from .common import Model, Rec, RefSched, SystemNotFoundError, gen_prio
+from .common import EqRec, Model, Rec, RefSched, SystemNotFoundError, gen_prio
 
 PROPERTY = "C01"
 QUICK_RUNS = 24000
@@ -18,7 +18,7 @@ COMPONENTS = {"real": ["ECAgent.Core.SystemManager.add_system/remove_system/exec
                        "ECAgent.Collectors.Collector (default priority)"],
               "stub": ["System.execute / Collector.collect bodies are harness recorders"]}
 PROBES = ["tie_of_3", "readd_after_remove", "insert_head", "insert_middle", "insert_tail",
-          "negative_next_to_collector", "dup_rejected", "unknown_rejected", "extreme_priority", "same_object_reregistered"]
+          "negative_next_to_collector", "dup_rejected", "unknown_rejected", "extreme_priority", "same_object_reregistered", "systems_with_value_equality"]
 TECHNIQUE = "deterministic simulation: seeded registration/removal histories with injected rejections vs a sorted-list reference, per-timestep execution log oracle"
 LEVEL_TEXT = ("Seeded search over registration histories; after every timestep the execution order recorded from the real "
               "scheduler must equal the reference (descending priority, registration order among equals) and after every "
@@ -65,7 +65,7 @@ def generate(rng, tier):
             ops.append({"op": "step", "n": rng.choice([1, 1, 1, 2, 3])})
         else:
             ops.append({"op": "lookup", "k": rng.randrange(n)})
-    return {"pool": pool, "ops": ops}
+    return {"pool": pool, "ops": ops, "value_eq": rng.random() < 0.15}
 
 
 class World:
@@ -78,6 +78,9 @@ class World:
 
 
 def execute(sc, ctx):
+    Rec_ = EqRec if sc.get("value_eq") else Rec       # noqa: N806
+    if sc.get("value_eq"):
+        ctx.probe("systems_with_value_equality")
     w = World(ctx)
     model = Model(seed=20260927)
     sm = model.systems
@@ -105,7 +108,7 @@ def execute(sc, ctx):
                 dup.pop("default_prio", None)
                 ctx.fault("reject.dup_system")
                 ctx.probe("dup_rejected")
-                obj = Rec(dup, model, w) if spec["kind"] == "system" else RecCollector(dup, model, w)
+                obj = Rec_(dup, model, w) if spec["kind"] == "system" else RecCollector(dup, model, w)
                 ctx.expect_raises("add-duplicate", KeyError, sm.add_system, obj)
                 ctx.event("add_rejected", sid)
                 shape.append(["dup", len(ref.q)])
@@ -114,7 +117,7 @@ def execute(sc, ctx):
                     obj = retired[sid]          # the very same System object is registered again
                     ctx.probe("same_object_reregistered")
                 else:
-                    obj = Rec(spec, model, w) if spec["kind"] == "system" else RecCollector(spec, model, w)
+                    obj = Rec_(spec, model, w) if spec["kind"] == "system" else RecCollector(spec, model, w)
                 ctx.expect_ok("add", sm.add_system, obj)
                 live[sid] = obj
                 pos = ref.add(spec)
